@@ -204,11 +204,20 @@ def r3_bridge(rep, facts):
     for node, f in range_structs(bb):
         okr = (peel(f['start']).get('path') or '').startswith('start') and (peel(f['end']).get('path') or '').startswith('end')
     rep.check(R, 'serde_spanned|range', okr, 'span: start..end', 'Spanned is not built as start..end', facts.loc(bb))
-    # field order constant
-    fs = [x for x in facts.bodies if x.endswith('deserialize::FIELDS') and 'serde_spanned' in x]
-    if fs:
-        arr = [last_seg(x.get('path') or '') for x in walk(facts.body(fs[0])['body']) if x.get('k') == 'path']
-        rep.check(R, 'serde_spanned|FIELDS', arr == ['START_FIELD', 'END_FIELD', 'VALUE_FIELD'], str(arr), f'FIELDS is {arr}')
+    # field order announced to the deserializer: the list passed to deserialize_struct (a literal, a local static or a module constant), evaluated
+    from .den import Interp as _I
+    dd = [x for x in facts.bodies if x.startswith('<serde_spanned::spanned::Spanned<T> as serde::de::Deserialize') and x.endswith('::deserialize')]
+    if dd:
+        bd = facts.body(dd[0])
+        calls = [x for x in walk(bd['body']) if x.get('k') == 'mcall' and x.get('name') == 'deserialize_struct' and len(x.get('args', [])) >= 2]
+        arr = None
+        if len(calls) == 1:
+            try:
+                arr = list(_I(Evaluator(facts)).val(calls[0]['args'][1], {}))
+            except (UN, TypeError):
+                arr = None
+        want = [const('START_FIELD'), const('END_FIELD'), const('VALUE_FIELD')] if len(meths) == 2 else None
+        rep.check(R, 'serde_spanned|FIELDS', arr is not None and arr == want, str(arr), f'the field list given to deserialize_struct is {arr}, expected {want}', facts.loc(bd))
 
 
 def r4_uniform(rep, facts):
@@ -250,7 +259,7 @@ def r6_attach(rep, facts):
     b = facts.body(P + 'value::apply_raw')
     variants = [v['name'] for v in facts.adts['toml_edit::value::Value']['variants']]
     seen = {}
-    sp = [p['name'] for p in b['params'] if p.get('k') == 'p_bind' and 'Range' in (p.get('t') or '')]
+    sp = [x['name'] for p in b['params'] for x in walk(p) if x.get('k') == 'p_bind' and 'Range' in (x.get('t') or '')]
     for m in walk(b['body']):
         if m.get('k') == 'match' and m.get('src') == 'Normal':
             for arm in m['arms']:
@@ -267,7 +276,8 @@ def r6_attach(rep, facts):
     rep.check(R, 'simple_key|with_span', ws and rs, '.with_span().map(|(k, span)| (RawString::with_span(span), k))', 'simple_key no longer records its own span', facts.loc(b))
     b = facts.body(P + 'value::value')
     ws = any(x.get('k') == 'mcall' and x.get('name') == 'with_span' for x in walk(b['body']))
-    ar = any(last_seg(c) == 'apply_raw' for x in calls_in(b['body']) for c in callee_all(x))
+    ar = any(last_seg(c) == 'apply_raw' for x in calls_in(b['body']) for c in callee_all(x)) or \
+        any(x.get('k') == 'path' and x.get('res') in ('Fn', 'AssocFn') and last_seg(x.get('path') or '') == 'apply_raw' for x in walk(b['body']))
     rep.check(R, 'value|with_span', ws and ar, '.with_span().map(apply_raw)', 'value no longer passes its with_span() range to apply_raw', facts.loc(b))
 
 
